@@ -7,6 +7,9 @@ Harness harness/drun.cpp, driver ocaml/driver_run.ml (extraction coq/Extract_run
  * DR cases: DetailedPlacer driven by whole passes, op `3 a b` = runSwaps(a, b), op `6 a b` = runReordering(a, b).  Compared after
    construction and after EVERY op: xtopo_.value(), ytopo_.value(), the exported circuit (x, y, orientation of every cell) and
    the row lists (rowCells(r) of every row).
+ * DS cases (run_shift_runs): whole runs WITH the shift pass (default parameter sets of efforts 1..9 included): the model makes its own
+   runShiftsOnCells calls (run_passes_c), every call recorded through hook 2 must fit (cells, network) and lemon's answer must pass the
+   extracted proved checker shift_cert_ok; states at every callback and at the end compared exactly.
  * DW cases: the whole of DetailedPlacer::place after legalization for parameter sets WITHOUT shift pass (shiftMaxNbCells < 2,
    accepted by DetailedPlacerParameters::check), nbPasses 0..3, reordering on / off, replayed statement by statement by the
    harness (how = 0: values readable at every callback) or through Circuit::placeDetailed(params, callback) itself (how = 1:
@@ -58,6 +61,9 @@ EXAMPLE = ("DW 2 0 12 0 2 0 0 12 2 4 5 6 0 0 2 2 0 3 0 1 4 0 2 2 0 0 0 1 1 2 2 2
            "3 2 1 0 0 4 0 0 2 2 3 0 0 5 0 0 2 2 0 1 1 2 0 0 2 2 2 2 3 0 1 3 ")
 EXAMPLE_VALUES = ["13 6", "10 2", "10 2", "7 2", "7 2", "7 2"]     # xtopo_.value() ytopo_.value() at INIT, the 4 callbacks, FINAL
 
+# the same circuit with ONE pass, shiftNbRows 2, shiftMaxNbCells 4: Example c02_run_closed_shift_nonvacuous (4 shift calls; hpwl 19 -> 12 -> 5)
+EXAMPLE_SHIFT = "DS " + " ".join(EXAMPLE.split()[1:-7]) + " 1 2 2 2 4 1 1 0"
+
 _cache = {}
 
 
@@ -67,14 +73,23 @@ def run_closed(ctx, count, seed, modes=(0, 16), lines=None):
     if key is not None and key in _cache:
         return _cache[key]
     ctx = ctx if ctx is not None else _Ctx()
+    shift_lines = None
+    if lines is not None:       # replay: DS lines go to run_shift_runs
+        shift_lines = [x for x in lines if x.startswith("DS ")]
+        lines = [x for x in lines if not x.startswith("DS ")]
     harness = common.build_harness("drun")
     driver = common.build_driver("run")
     if lines is None:
         lines = common.corpus("C02", ("DR ", "DW ")) + [EXAMPLE + "0", EXAMPLE + "1"]
         for m in modes:
             lines += common.harness_gen(harness, ["rand", seed + 300 + m, count // len(modes), m])
+        # stress streams (checks/stress_streams.py): DR / DW circuits TRANSLATED to 2^24 + odd .. +-(2^30 - small) (these runs have no shift
+        # pass) and designed wide rows with reordering windows of 6..8 cells (the model side costs 1-2 s per 8-cell window)
+        from checks import stress_streams as ss
+        sbig, swide, stress_info = ss.extra_lines(harness, "DR", seed, count // 10, max(6, count // 500), ["rand", seed + 977, count // 5, 0])
+        lines += sbig + swide
     impl, _, _ = common.run_both([harness, "run"], None, lines, chunk=200, timeout=600)
-    res = {"cases": len(lines), "noleg": 0, "dr_runs": 0, "dw_runs": 0, "dw_runs_through_placeDetailed": 0,
+    res = {"cases": len(lines), "stress_streams": (stress_info if key is not None else {}), "noleg": 0, "dr_runs": 0, "dw_runs": 0, "dw_runs_through_placeDetailed": 0,
            "swap_pass_ops": 0, "swap_pass_ops_changing": 0, "swap_pass_ops_changing_row": 0, "reorder_pass_ops": 0, "reorder_pass_ops_changing": 0,
            "callback_states": 0, "whole_runs_changing": 0, "whole_runs_with_reordering": 0, "states_compared": 0, "nontrivial": set(),
            "runs_with_side_by_side_rows": 0, "runs_with_empty_row": 0, "runs_with_one_cell_row": 0,
@@ -129,6 +144,11 @@ def run_closed(ctx, count, seed, modes=(0, 16), lines=None):
         except (ValueError, IndexError):
             pass
         prev_pl = None; prev_val = None; bad = False; changed_any = False
+        died = [x for x in segs if x in ("ABORT", "SEGV", "FPE", "SIGNAL") or x.startswith(("DIED", "SKIPPED"))]
+        if died and not any(x.startswith("ERR") for x in msegs):
+            # an assertion failure / crash inside a pass or a whole run the model completes: a concrete failing input (C02: "never fails")
+            res["crash"].append((l, died[0][:200], " / ".join(x[:40] for x in msegs)[:300], "the C++ aborted / crashed (%s) after %d exposed states; the model completes the run" % (died[0][:60], len(segs) - 1)))
+            continue
         if len(segs) != len(msegs) and not any(s.startswith("THROW") for s in segs) and not any(s.startswith("ERR") for s in msegs):
             res["mismatch"].append((l, "%d segments" % len(segs), "%d segments" % len(msegs), "number of exposed states"))
             continue
@@ -194,10 +214,119 @@ def run_closed(ctx, count, seed, modes=(0, 16), lines=None):
         if kind != "DR" and int(rest[6]) >= 2 and int(rest[0]) >= 1:
             res["whole_runs_with_reordering"] += 1
     res["distinct_nontrivial"] = len(res.pop("nontrivial"))
+    run_shift_runs(ctx, res, max(40, count // 3), seed, modes, shift_lines)      # whole runs WITH the shift pass (DS cases)
     if key is not None:
         _cache[key] = res
     return res
 
+
+
+def run_shift_runs(ctx, res, count, seed, modes=(0, 16), lines=None):
+    """DS cases: WHOLE runs of DetailedPlacer::place WITH the shift pass (shiftMaxNbCells >= 2; 25 % the default parameter sets of efforts
+    1..9; 25 % through Circuit::placeDetailed itself).  The harness records every runShiftsOnCells call through hook 2 of /repo (cells,
+    labelled arcs with lemon's flows, lemon's potentials); the model (run_passes_c, tag RS) makes its OWN calls -- row sets of
+    RowNeighbourhood, cell list, windows, overlap --, checks every record against its call (same cells in the same order, same multiset
+    of labelled arcs as ShiftLp.shift_net) and accepts lemon's answer only if the extracted PROVED checker ShiftLp.shift_cert_ok accepts
+    it (so oracle_ok of c02_run_passes_returns is CHECKED for the run).  Compared exactly: the state after construction, at EVERY
+    callback (swaps / shifts / reordering of every pass), the final state, both values; every record must be consumed.  Adds keys
+    shift_* to res and appends to res["mismatch"] / res["driver_fail"] / res["crash"] / res["check_fail"]."""
+    harness = common.build_harness("drun")
+    driver = common.build_driver("run")
+    if lines is None:
+        # + the circuit of Example c02_run_closed_shift_nonvacuous (Properties_C02_run.v): its four answers are lemon's on this case
+        lines = common.corpus("C02", ("DS ",)) + [EXAMPLE_SHIFT]
+        for m in modes:
+            lines += common.harness_gen(harness, ["shift", seed + 500 + m, count // len(modes), m])
+    for k in ("shift_cases", "shift_noleg", "shift_runs", "shift_runs_default_parameters", "shift_runs_through_placeDetailed", "shift_calls_recorded_and_certified",
+              "shift_runs_with_calls", "shift_runs_with_several_windows_in_a_row_set", "shift_states_compared", "shift_callbacks_changing_placement",
+              "shift_max_calls_in_a_run", "shift_oracle_rejected", "shift_record_differs", "shift_second_windows_at_the_overlap_cap_10"):
+        res.setdefault(k, 0)
+    res["shift_cases"] += len(lines)
+    if not lines:
+        return res
+    impl, _, _ = common.run_both([harness, "run"], None, lines, chunk=100, timeout=600)
+    pinp, pmap = [], []
+    for l, out in zip(lines, impl):
+        o = out.strip()
+        if o == "NOLEG" or o == "":
+            res["shift_noleg"] += 1
+            continue
+        segs = [x.strip() for x in o.split(" / ")]
+        ctoks, ntoks, rest = split_case(l)
+        if len(segs) < 2 or not segs[0].startswith("PARAMS") or not segs[1].startswith("LEG"):
+            res["crash"].append((l, o[-300:], "no outcome: " + o[:80], "whole run with the shift pass"))
+            continue
+        params = segs[0].split()[1:]
+        recs = [x[2:] for x in segs if x.startswith("L ")]
+        body = [x for x in segs[2:] if not x.startswith("L ")]
+        pl0 = [int(x) for x in segs[1].split(";")[1].split()]
+        pinp.append("RS " + " ".join(lc.with_placement(ctoks, pl0)) + " " + " ".join(do.nets_for_hp(ntoks)) + " " + " ".join(cap(t) for t in params) +
+                    " %d " % len(recs) + " ".join(recs))
+        pmap.append((l, rest, params, recs, body))
+    pout, _, _ = common.run_both([driver], None, pinp, chunk=50, timeout=900)
+    for (l, rest, params, recs, body), o in zip(pmap, pout):
+        msegs = [x.strip() for x in o.split(" / ")]
+        if not msegs or not msegs[0].startswith("INIT"):
+            res["driver_fail"].append((l, o[:200], "the model did not build a state for a circuit the C++ accepted", "whole run with the shift pass"))
+            continue
+        through = rest[-1] == "1"
+        res["shift_runs"] += 1; res["shift_runs_default_parameters"] += rest[0] == "-1"; res["shift_runs_through_placeDetailed"] += through
+        res["shift_runs_with_calls"] += bool(recs); res["shift_max_calls_in_a_run"] = max(res["shift_max_calls_in_a_run"], len(recs))
+        thrown = [x for x in body if x.startswith("THROW")]
+        if thrown:
+            res["crash"].append((l, thrown[0][:300], msegs[-1][:200], "placeDetailed with the shift pass throws on a circuit legalization accepts"))
+            continue
+        if msegs[-1].startswith("ERR") or msegs[-1].startswith("BADPARAMS"):
+            kind = "shift_oracle_rejected" if "EOracle" in msegs[-1] else "shift_record_differs" if "ERecord" in msegs[-1] else None
+            if kind:
+                res[kind] += 1
+            why = {"shift_oracle_rejected": "lemon's recorded answer to a runShiftsOnCells call is rejected by ShiftLp.shift_cert_ok on the model's network, or the C++ made fewer calls than the model",
+                   "shift_record_differs": "a recorded runShiftsOnCells call differs from the model's call: other cells / order, or another network"}.get(kind, "the model stops")
+            res["mismatch"].append((l, "%d segments, %d shift calls" % (len(body), len(recs)), " / ".join(x[:60] for x in msegs[-2:]), "whole run with the shift pass: " + why))
+            continue
+        if not msegs[-1].startswith("REST"):
+            res["mismatch"].append((l, body[-1][:200], msegs[-1][:200], "whole run with the shift pass: no end marker"))
+            continue
+        if msegs[-1] != "REST 0":
+            res["mismatch"].append((l, "%d shift calls recorded" % len(recs), msegs[-1], "whole run with the shift pass: the C++ made more runShiftsOnCells calls than the model"))
+            continue
+        msegs = msegs[:-1]
+        if through:
+            msegs = msegs[1:]
+        if len(body) != len(msegs):
+            res["mismatch"].append((l, "%d segments" % len(body), "%d segments" % len(msegs), "whole run with the shift pass: number of exposed states"))
+            continue
+        prev = None; bad = False
+        for k, (a, m) in enumerate(zip(body, msegs)):
+            ta, va, pa, ra, ca = seg_fields(a)
+            tm, vm, pm, rm, _ = seg_fields(m)
+            got, want = ((ta, pa), (tm, pm)) if through else ((ta, va, pa, ra), (tm, vm, pm, rm))
+            res["shift_states_compared"] += 1
+            if got != want:
+                res["mismatch"].append((l, " | ".join(got)[:400], " | ".join(want)[:400], "whole run with the shift pass: segment %d (%s) of %d, %d shift calls" % (k, ta, len(body), len(recs))))
+                bad = True
+                break
+            if ca and ca != "ok":
+                res["check_fail"].append((l, ca, "", "DetailedPlacer::check() after a whole run with the shift pass"))
+            if prev is not None and pa != prev and ta == "CB":
+                res["shift_callbacks_changing_placement"] += 1
+            prev = pa
+        if bad:
+            continue
+        res["shift_calls_recorded_and_certified"] += len(recs)
+        # windows of maxNbCells >= 21 cells followed by a window that starts maxNbCells - 10 cells later (overlap capped at 10)
+        mnb = int(params[4])
+        if mnb >= 21:
+            rc = [x.split() for x in recs]
+            for a_, b_ in zip(rc, rc[1:]):
+                ka, kb = int(a_[0]), int(b_[0])
+                if ka == mnb and a_[1 + mnb - 10:1 + mnb] == b_[1:11][:min(10, kb)] and kb >= 1:
+                    res["shift_second_windows_at_the_overlap_cap_10"] += 1
+        # several windows in one row set: the number of calls exceeds the number of row sets a pass can have (one per row at most)
+        nrows = int(seg_fields(msegs[0] if not through else o.split(" / ")[0])[3].split()[0] or 0) if not through else 0
+        if nrows and int(params[0]) and len(recs) > nrows * int(params[0]):
+            res["shift_runs_with_several_windows_in_a_row_set"] += 1
+    return res
 
 
 def report(ctx, res, prop):
